@@ -728,6 +728,12 @@ CORPUS = [
     [['new'], ['add_dep', 0, 0, 2], ['add_dep', 0, 2, 0], ['q_sort', 0], ['add_dep', 0, 4, 4],
      ['remove_node', 0, 2], ['q_sort', 0], ['end', 0]],
     [['new'], ['end', 0]],
+    # an empty graph shared between two levels: 4 -> E in the outer graph, E -> 2 in a sub-graph
+    [['new'], ['copy', 0], ['add_dep', 0, 2, 3], ['invert', 0], ['remove_node', 0, 2],
+     ['add_dep', 0, 4, 3], ['add_node', 0, 5], ['end', 0]],
+    # a self-dependent sub-graph holding an empty one (flatten must terminate)
+    [['new'], ['new'], ['new'], ['add_node', 2, 3], ['add_dep', 0, 5, 5], ['add_dep', 0, 0, 5],
+     ['end', 0]],
 ]
 
 
